@@ -61,9 +61,18 @@ def predicate_to_koreo_result(
                 return result.Skip(message=f"{message}", location=location)
 
             case {"assert": _, "retry": {"message": message, "delay": delay}}:
+                try:
+                    delay_seconds = int(delay)
+                    if isinstance(delay, float) and delay_seconds != delay:
+                        raise ValueError(f"{delay} is not a whole number")
+                except (TypeError, ValueError, OverflowError) as err:
+                    return result.PermFail(
+                        message=f"Invalid retry delay ({err})", location=location
+                    )
+
                 return result.Retry(
                     message=f"{message}",
-                    delay=int(f"{delay}"),
+                    delay=delay_seconds,
                     location=location,
                 )
 
